@@ -217,6 +217,27 @@ def check(run):
                     ok_loop, cm = G.equivalent(azb.formula(i1.test), azb.formula(common.spec_expr(SPEC.C17_MIXED_BYTE)))
                     det = f"per-byte test {G.show(azb.formula(i1.test))}"
         ok_tail = prog.try_fold(km, rt.value) is False
+    if len(body) == 2 and isinstance(body[0], ast.If) and isinstance(body[1], ast.Return) and isinstance(body[1].value, ast.Call) and \
+            common.is_name(body[1].value.func, "any") and len(body[1].value.args) == 1 and isinstance(body[1].value.args[0], (ast.GeneratorExp, ast.ListComp)):
+        # the same decision written as `return any(<per-byte test> for a, b in zip(raw, value))`
+        i0, gen_ = body[0], body[1].value.args[0]
+        if len(i0.body) == 1 and isinstance(i0.body[0], ast.Return) and prog.try_fold(km, i0.body[0].value) is False and not i0.orelse:
+            ok_pre, _ = G.equivalent(azm.formula(i0.test), azm.formula(common.spec_expr(SPEC.C17_MIXED_PRE)))
+        g0 = gen_.generators[0]
+        if len(gen_.generators) == 1 and not g0.ifs and isinstance(g0.iter, ast.Call) and common.is_name(g0.iter.func, "zip") and len(g0.iter.args) == 2 and \
+                isinstance(g0.target, ast.Tuple) and len(g0.target.elts) == 2:
+            t0, t1 = (x.id for x in g0.target.elts)
+            ren = {}
+            for tv, arg in ((t0, g0.iter.args[0]), (t1, g0.iter.args[1])):
+                if common.is_name(arg, RAW):
+                    ren[tv] = "RAWB"
+                elif common.is_name(arg, VAL):
+                    ren[tv] = "KWB"
+            if set(ren.values()) == {"RAWB", "KWB"}:
+                azb = G.Atomizer(rename=ren)
+                ok_loop, cm = G.equivalent(azb.formula(gen_.elt), azb.formula(common.spec_expr(SPEC.C17_MIXED_BYTE)))
+                det = f"per-byte test {G.show(azb.formula(gen_.elt))}"
+                ok_tail = True      # any() of no true element is False
     run.ob("R5-mixedcase", "keyword.is_mixed_case/uniform-case-excluded", ok_pre, w(mc.node),
            "text that is entirely upper- or lower-case is never MixedCase", "first guard is not `raw.isupper() or raw.islower()` -> False",
            mech="truth table")
